@@ -258,6 +258,10 @@ def err_kind(e: BaseException) -> str:
             return 'syncFail'
     if isinstance(e, errors.QueryError) and 'Explicit transaction control' in m:
         return 'txInScript'
+    if isinstance(e, errors.QueryError) and 'in a migration block' in m:
+        return 'inMigrationBlock'
+    if isinstance(e, errors.QueryError) and 'outside of a migration block' in m:
+        return 'notInMigrationBlock'
     if isinstance(e, (errors.UnknownModuleError, errors.InvalidReferenceError, errors.ConfigurationError)):
         return 'compileError'
     if isinstance(e, RuntimeError) and 'failed to lookup savepoint' in m:
@@ -474,10 +478,17 @@ def l1_line(case) -> str:
 # ------------------------------------------------------------------- level 2
 class FakeSource(C.edgeql.Source):
     """a `Source` that carries its already parsed statements"""
+    BY_TEXT: dict = {}
+
+    @classmethod
+    def from_string(cls, text):
+        # compile() re-tokenises `source.text()` inside a migration block
+        return cls.BY_TEXT[text]
 
     def __init__(self, stmts, text):  # noqa: super().__init__ needs the native tokenizer
         self.stmts = stmts
         self._text = text
+        FakeSource.BY_TEXT[text] = self
 
     def text(self):
         return self._text
@@ -549,6 +560,10 @@ def ast_of(stmt: str, cf: bool):
                                expr=qlast.Constant(kind=qlast.ConstantKind.INTEGER, value=w[1]))
     if k == 'Q':
         return qlast.SelectQuery(result=qlast.Constant(kind=qlast.ConstantKind.INTEGER, value=str(int(cf))))
+    if k == 'M':
+        return qlast.StartMigration(target=qlast.Schema(declarations=[]))
+    if k == 'N':
+        return qlast.AbortMigration()
     raise core.Infra(f'bad stmt {stmt}')
 
 
@@ -579,6 +594,10 @@ def text_of(stmt: str, cf: bool) -> str:
                 f"configure session set {BCFG} := <duration>'{w[1]} seconds'")
     if k == 'Q':
         return 'select NoSuch' if cf else 'select 1'
+    if k == 'M':
+        return 'start migration to { module default {} }'
+    if k == 'N':
+        return 'abort migration'
     raise core.Infra(f'bad stmt {stmt}')
 
 
@@ -615,6 +634,8 @@ class Env:
         ns = types.SimpleNamespace(**{k: getattr(real_edgeql, k) for k in dir(real_edgeql)
                                       if not k.startswith('__')})
         ns.parse_block = parse_block
+        if standin:
+            ns.Source = FakeSource
         C.edgeql = ns
         C.rpc.CompilationRequest = FakeRequest
         if standin:
@@ -662,6 +683,30 @@ class Env:
         def stub_preprocess_script(stmts, *, schema, options):
             return types.SimpleNamespace(params={}, schema=schema)
 
+        def stub_start_migration(ctx, ql, in_script):
+            # ddl._start_migration inside a transaction block, reduced to its effect on the state
+            # (its else-branch: `current_tx.start_migration()` + `update_migration_state(...)`); the
+            # SDL target cannot be applied to tagged empty schemas.  Everything around it
+            # (compile_dispatch_ql_migration's expect_rollback guard, _abort_migration,
+            # _make_query_unit's MigrationControlQuery branch) is the real code.
+            from edb.schema import objects as s_obj
+            ctx._assert_not_in_migration_block(ql)
+            current_tx = ctx.state.current_tx()
+            if current_tx.is_implicit() and not in_script:
+                raise core.Infra('stand-in START MIGRATION outside a transaction block')
+            schema = current_tx.get_schema(ctx.compiler_state.std_schema)
+            savepoint_name = current_tx.start_migration()
+            current_tx.update_migration_state(dbstate.MigrationState(
+                parent_migration=None, initial_schema=schema, initial_savepoint=savepoint_name,
+                guidance=s_obj.DeltaGuidance(), target_schema=schema, accepted_cmds=tuple(),
+                last_proposed=None))
+            return dbstate.MigrationControlQuery(
+                sql=b'', action=dbstate.MigrationAction.START, tx_action=None, cacheable=False,
+                modaliases=None)
+
+        self._saved_start_migration = self._saved['ddl']._start_migration
+        self._saved['ddl']._start_migration = stub_start_migration
+
         real_ddl = C.ddl
         nd = types.SimpleNamespace(**{k: getattr(real_ddl, k) for k in dir(real_ddl)
                                       if not k.startswith('__')})
@@ -688,6 +733,8 @@ class Env:
         return FakeRequest(src, modaliases, session_config)
 
     def uninstall(self):
+        if getattr(self, '_saved_start_migration', None) is not None:
+            self._saved['ddl']._start_migration = self._saved_start_migration
         for k, v in self._saved.items():
             setattr(C, k, v)
         if self._saved_req is not None:
@@ -710,7 +757,7 @@ class Pool:
         from lib import c17rig as R
         self.env = env
         self.transport = transport
-        self.nw = 2 if transport == 'p' else 1
+        self.nw = 2 if transport in ('p', 'c') else 1
         self.loop = asyncio.new_event_loop()
         self.rig = R.Rig(self.loop, 'fixed', self.nw, {'db': (user_pickle, E, E)}, global_pickle, E)
         self.loop.run_until_complete(self.rig.attach())
@@ -764,6 +811,7 @@ class Sim:
         self.db_user_schema_pickle = pickle.dumps(CODEC.mk_schema(u), -1)
         self.global_schema_pickle = pickle.dumps(CODEC.mk_schema(g), -1)
         self.pool = Pool(env, transport, self.db_user_schema_pickle, self.global_schema_pickle)
+        self.query_cache = {} if transport == 'c' else None
         self._modaliases = mk_aliases(a)
         self._config = mk_config(c)
         self._last_comp_state = None
@@ -777,6 +825,7 @@ class Sim:
         self._in_tx_modaliases = None
         self._in_tx_savepoints = []
         self._in_tx_root_user_schema_pickle = None
+        self._in_tx_with_ddl = False
         self._tx_error = False
 
     def get_modaliases(self):
@@ -833,6 +882,8 @@ class Sim:
             self._in_tx_config = self._config
             self._in_tx_modaliases = self._modaliases
             self._in_tx_root_user_schema_pickle = self.db_user_schema_pickle
+        if self._in_tx and unit.has_ddl:          # _apply_in_tx
+            self._in_tx_with_ddl = True
 
     def on_success(self, unit):
         if not self._in_tx:
@@ -900,7 +951,9 @@ class Sim:
     def execute_rollback(self, unit):
         if not (unit.tx_savepoint_rollback or unit.tx_rollback or unit.tx_abort_migration):
             raise errors.TransactionError('current transaction is aborted, commands ignored')
-        if unit.tx_savepoint_rollback:
+        if unit.tx_abort_migration:
+            self._tx_error = False           # clear_tx_error()
+        elif unit.tx_savepoint_rollback:
             self.rollback_tx_to_savepoint(unit.sp_name)
         else:
             self.abort_tx()
@@ -908,6 +961,14 @@ class Sim:
     # --- one statement through parse() + execute, wrapped as the message loop does
     def statement(self, stmts: list[str], cf: bool, bf: bool):
         req = self.env.request(stmts, cf, self.get_modaliases(), self.get_session_config())
+        # dbview.parse(): the compiled-query cache (transport 'c' = query cache enabled, as it is by
+        # default).  The key is the hash of the request: source text, aliases, session config, schema …
+        ckey = (req.source.text(), tok_aliases(self.get_modaliases()), tok_config(self.get_session_config()),
+                self.db_user_schema_pickle)
+        cache = self.query_cache
+        if cache is not None and not self._tx_error and not self._in_tx_with_ddl and ckey in cache:
+            group = cache[ckey]           # lookup_compiled_query(): a hit skips the compiler altogether
+            return self._run_group(group, bf)
         try:
             try:                       # dbview.parse()
                 group = self._compile(req)
@@ -923,6 +984,15 @@ class Sim:
         except Exception as e:  # noqa: BLE001 — the message loop's handler
             self.tx_error()
             return 'rej:' + err_kind(e), None
+        if cache is not None and group.cacheable and not (self._tx_error or self._in_tx_with_ddl):
+            try:
+                self._check_in_tx_error(group)
+                cache.setdefault(ckey, group)     # cache_compiled_query()
+            except errors.TransactionError:
+                pass
+        return self._run_group(group, bf)
+
+    def _run_group(self, group, bf):
         unit = group[0]
         try:
             self._check_in_tx_error(group)
@@ -987,6 +1057,8 @@ class PG2:
         self.failed = False
         self.cur = None
         self.frames = []
+        self.mig = None        # inside a migration block opened in this transaction block: number of
+                               # savepoints that existed at START MIGRATION
 
     def exposed(self):
         return self.cur if self.in_tx else self.base
@@ -1042,7 +1114,12 @@ class PG2:
             return 'ok'
         if self.failed:
             if k == 'R':
-                self.in_tx = False
+                self.in_tx, self.mig = False, None
+                return 'ok'
+            if k == 'N' and self.mig is not None:
+                # ABORT MIGRATION is accepted in an aborted block and clears the server's error flag
+                # (dbview.clear_tx_error); START MIGRATION inside a block sent no SQL at all
+                self.failed, self.mig = False, None
                 return 'ok'
             if k == 'B':
                 i = self.find(w[1])
@@ -1050,6 +1127,8 @@ class PG2:
                     return 'rej'
                 self.cur, self.failed = self.frames[i][1], False
                 del self.frames[i + 1:]
+                if self.mig is not None and i < self.mig:
+                    self.mig = None      # back before START MIGRATION: the block is gone
                 return 'ok'
             return 'rej'
         # in a healthy block
@@ -1058,6 +1137,18 @@ class PG2:
             return cls
         if k == 'S':
             return fail('rej')
+        if k == 'M':                    # START MIGRATION inside the block: compiler-side only
+            if self.mig is not None:
+                return fail('rej')
+            self.mig = len(self.frames)
+            return 'ok'
+        if k == 'N':
+            if self.mig is None:
+                return fail('rej')
+            self.mig = None
+            return 'ok'
+        if k == 'C' and self.mig is not None:
+            return fail('rej')          # "cannot execute COMMIT in a migration block"
         if k == 'C':
             if bf == 2:                 # failed, and the backend is still in the (now aborted) block
                 return fail('failed')
@@ -1066,6 +1157,8 @@ class PG2:
                 return 'failed'
             self.base, self.in_tx = self.cur, False
             return 'ok'
+        if k == 'R' and not bf:
+            self.mig = None
         if k == 'R' and bf:             # a ROLLBACK that failed: the block is still there, aborted
             return fail('failed')
         if k == 'R':
@@ -1087,6 +1180,8 @@ class PG2:
             else:
                 self.cur = self.frames[i][1]
                 del self.frames[i + 1:]
+                if self.mig is not None and i < self.mig:
+                    self.mig = None
             return 'ok'
         if cf:
             return fail('rej')
@@ -1112,12 +1207,27 @@ def classify_uncovered(evs, upto: int, transport: str = 'p') -> str | None:
     place, which is tested but not proved)."""
     pg = PG2((0, 0, 0, 0))
     cls = None
+    if transport == 'c' and sum(1 for (st, _, _) in evs[:upto + 1] if split_cs(st)[1].startswith('L ')) >= 2:
+        # query cache on: RELEASE SAVEPOINT units are cacheable, a repeated one is served from the cache
+        # and never reaches the compiler state
+        cls = 'release-cached'
     mark = None       # number of frames right after the last accepted ROLLBACK TO of this block
     pending = False   # an accepted ROLLBACK TO whose sync_to_savepoint has not happened yet
     for (stmt0, cf, bf) in evs[:upto + 1]:
         cs, stmt = split_cs(stmt0)
         w = stmt.split(' ')
         healthy = pg.in_tx and not pg.failed
+        if pg.in_tx and pg.mig is not None:
+            if bf:
+                # START MIGRATION inside a block sends no SQL: a backend failure inside the migration
+                # block aborts PostgreSQL's transaction, ABORT MIGRATION clears only the server's flag
+                cls = cls or 'migration-fault'
+            if w[0] == 'L' and healthy and pg.find(w[1]) is not None and pg.find(w[1]) < pg.mig:
+                # releases the migration's internal savepoint too: ABORT MIGRATION then fails
+                cls = cls or 'migration-release-outer'
+            if w[0] == 'N' and len(pg.frames) > pg.mig:
+                # savepoints declared inside the block: the compiler forgets them, PostgreSQL has them
+                cls = cls or 'migration-inner-savepoint'
         if cs is not None and pending and pg.in_tx:
             # session differences are applied before sync_tx and overwritten by sync_to_savepoint
             cls = cls or 'client-state-after-rollback-to'
@@ -1176,8 +1286,8 @@ def run_l2(env: Env, case):
             sim.set_session_config(CODEC.mk_config(cs[1]))
             exposed = (exposed[0], exposed[1], cs[0], cs[1])
         parts = stmt.split('; ')
-        if len(parts) > 1 and not sim._in_tx:
-            outs.append('unmodelled')
+        if (len(parts) > 1 or stmt in ('M', 'N')) and not sim._in_tx:
+            outs.append('unmodelled')    # scripts / migration blocks outside a transaction block
             continue
         outcome, unit = sim.statement(parts, cf, bf)
         if len(parts) > 1 and unit is not None:
@@ -1294,6 +1404,12 @@ def gen_l2_random(rng, n_cases, maxlen, covered: bool):
                         queue.append((rng.choice(['A', 'F', 'U']), False, 0))
                     queue += [('B ' + a, False, 0), (rng.choice(['Q', 'U', 'F']), False, 0),
                               (rng.choice(['Q', 'A', 'C', 'D ' + b]), False, 0)]
+                if not queue and pg.in_tx and not pg.failed and rng.random() < pnest / 2:
+                    # shadowed name: SAVEPOINT a; X; SAVEPOINT a; Y; ROLLBACK TO a; RELEASE a; ROLLBACK TO a; …
+                    a = rng.choice(names)
+                    queue += [('D ' + a, False, 0), (rng.choice(['A', 'F', 'U']), False, 0), ('D ' + a, False, 0),
+                              (rng.choice(['A', 'F', 'U', 'Q']), False, 0), ('B ' + a, False, 0),
+                              ('L ' + a, False, 0), ('B ' + a, False, 0), ('Q', False, 0), ('Q', False, 0)]
                 if queue:
                     k, cf, bf = queue.pop(0)
                     if ' ' in k:
@@ -1352,6 +1468,47 @@ def gen_l2_random(rng, n_cases, maxlen, covered: bool):
                     queue.append((rng.choice(['U', 'A', 'F', 'Q']), False, 0))
                 queue.append(rng.choice([('C', False, 2), ('R', False, 1)]))
         yield (rng.choice(['p', 'p', 'r']), (1, 2, 3, 4), evs)
+
+
+def gen_l2_mig(rng, n_cases, maxlen, covered: bool):
+    """histories with migration blocks (START MIGRATION … ABORT MIGRATION) opened INSIDE explicit
+    transaction blocks, with savepoints (also shadowed names, RELEASE, ROLLBACK TO) before, inside and
+    after them; no DDL and no backend failures inside a block.  These run against the spec oracle only
+    (migration blocks are not in the Lean model)."""
+    for _ in range(n_cases):
+        names = rng.choice([['1', '2'], ['1', '2', '3'], ['1']])
+        evs, tag = [], 10
+        pg = PG2((0, 0, 0, 0))
+        ln = rng.randint(5, maxlen)
+        for _ in range(ln):
+            for _try in range(20):
+                cf = False
+                if not pg.in_tx:
+                    k = rng.choices(['S', 'U', 'A', 'Q'], weights=[6, 1, 1, 1])[0]
+                elif pg.mig is None:
+                    k = rng.choices(['D', 'B', 'L', 'U', 'A', 'F', 'Q', 'M', 'N', 'C', 'R'],
+                                    weights=[5, 4, 2, 3, 1, 1, 2, 4, 0.3, 0.7, 0.4])[0]
+                else:
+                    k = rng.choices(['Q', 'A', 'F', 'D', 'B', 'L', 'N', 'M', 'C', 'S', 'R'],
+                                    weights=[3, 1, 1, 1.5, 2, 1, 4, 0.4, 0.6, 0.3, 0.3])[0]
+                    cf = k == 'Q' and rng.random() < 0.15
+                if k in 'DLB':
+                    s = f'{k} {rng.choice(names)}'
+                elif k == 'U':
+                    s = f'U {tag + 2} {tag + 3}'
+                elif k in 'AF':
+                    s = f'{k} {tag + 1}'
+                else:
+                    s = k
+                if covered and classify_uncovered(evs + [(s, cf, 0)], len(evs)) is not None:
+                    continue
+                break
+            else:
+                s, cf = 'Q', False
+            tag += 4
+            evs.append((s, cf, 0))
+            pg.step(s, cf, 0)
+        yield (rng.choice(['p', 'r']), (1, 2, 3, 4), evs)
 
 
 def gen_l2_scripts(rng, n_cases):
@@ -1428,6 +1585,9 @@ WITNESSES = {
     'fault-declare': [('S', 0, 0), ('D 1', 0, 0), ('B 1', 0, 0), ('U 5 6', 0, 0), ('D 1', 0, 1),
                       ('B 1', 0, 0), ('Q', 0, 0)],
     'fault-start': [('S', 0, 1), ('Q', 0, 0)],
+    'migration-inner-savepoint': [('S', 0, 0), ('D 1', 0, 0), ('M', 0, 0), ('D 2', 0, 0), ('N', 0, 0), ('B 2', 0, 0)],
+    'migration-release-outer': [('S', 0, 0), ('D 1', 0, 0), ('M', 0, 0), ('L 1', 0, 0), ('N', 0, 0)],
+    'release-cached': ('c', [('S', 0, 0), ('D 1', 0, 0), ('L 1', 0, 0), ('D 1', 0, 0), ('L 1', 0, 0), ('B 1', 0, 0)]),
     'client-state-after-rollback-to': [('S', 0, 0), ('D 1', 0, 0), ('B 1', 0, 0), ('@7,4 Q', 0, 0), ('Q', 0, 0)],
     'detached-later-savepoint': [('S', 0, 0), ('D 1', 0, 0), ('B 1', 0, 0), ('Q', 0, 0), ('D 2', 0, 0), ('C', 0, 2),
                                  ('B 2', 0, 0)],
@@ -1482,12 +1642,32 @@ def detached_stats(evs):
     return n_det, n_st, n_b
 
 
-def REGRESSIONS():
+def real_release_unit_cacheable(env) -> dict:
+    """`cacheable` of the units the REAL compiler builds for transaction control (only RELEASE
+    SAVEPOINT is left cacheable: `_compile_ql_transaction` sets `cacheable = False` in every other
+    branch)"""
+    st = L1Real((1, 2, 3, 4)).st
+    ctx = C.CompileContext(compiler_state=env.cstate, state=st, output_format=enums.OutputFormat.BINARY,
+                           expected_cardinality_one=False, protocol_version=defines.CURRENT_PROTOCOL)
+    out = {}
+    for s_ in ['S', 'D 1', 'L 1', 'D 1', 'B 1', 'C']:
+        g = C.compile(ctx=ctx, source=FakeSource([ast_of(s_, False)], s_))
+        out[s_.split(' ')[0]] = bool(g.cacheable)
+    return out
+
+
+def has_mig(evs) -> bool:
+    return any(st in ('M', 'N') for s, _, _ in evs for st in split_cs(s)[1].split('; '))
+
+
+def REGRESSIONS(quick_bridge_only: bool = False):
     """corpus/C09/regressions.json: histories that once diverged (run first)"""
     import os
     path = os.path.join(core.VERIF, 'corpus', 'C09', 'regressions.json')
     out = []
     for c in json.load(open(path))['cases']:
+        if quick_bridge_only and not c.get('quick_bridge'):
+            continue
         out.append((c['name'], (c['transport'], tuple(c['payload']),
                                 [(s, bool(cf), int(bf)) for s, cf, bf in c['events']])))
     return out
@@ -1525,22 +1705,50 @@ def run(ctx: core.Ctx):
         for c in gen_l2_random(rng, ctx.budget(700, 15000), 30, covered=False):
             l2_cases.append((c, 'uncovered'))
         for k, evs in WITNESSES.items():
-            l2_cases.append((('p', (1, 2, 3, 4), [(s, bool(c), int(b)) for s, c, b in evs]), 'witness:' + k))
+            tr = 'p'
+            if isinstance(evs, tuple):
+                tr, evs = evs
+            l2_cases.append(((tr, (1, 2, 3, 4), [(s, bool(c), int(b)) for s, c, b in evs]), 'witness:' + k))
+        for (t, pl, evs) in gen_l2_random(rng, ctx.budget(120, 4000), 30, covered=True):
+            l2_cases.append((('c', pl, evs), 'query-cache'))
         # the REUSE transport on a statement that is rejected after it has written to the state
         for name, c in REGRESSIONS():
             l2_cases.insert(0, (c, 'regression'))
             l2_cases.append(((('p',) + c[1:]), 'regression'))
+        for c in gen_l2_mig(rng, ctx.budget(350, 10000), 24, covered=True):
+            l2_cases.append((c, 'migration'))
+        for c in gen_l2_mig(rng, ctx.budget(150, 5000), 20, covered=False):
+            l2_cases.append((c, 'migration-uncovered'))
         for c in gen_l2_scripts(rng, ctx.budget(150, 3000)):
             l2_cases.append((c, 'script'))
         # the same through the REAL parser and compilers (front-end bridge)
-        for c in gen_l2_bridge(rng, ctx.budget(20, 1500), ctx.budget(4, 80)):
+        for c in gen_l2_bridge(rng, ctx.budget(8, 1500), ctx.budget(1, 80)):
             l2b_cases.append((c, 'bridge'))
+        for (t, pl, evs) in gen_l2_mig(rng, ctx.budget(1, 400), 12, covered=True):
+            evs_b, nddl = [], 0
+            for st, cf, bf in evs:
+                w = st.split(' ')
+                if w[0] == 'A':
+                    st = f'A {int(w[1]) % len(MODS)}'
+                elif w[0] == 'U':
+                    nddl += 1
+                    st = f'U {w[1]} 2' if nddl <= 1 else 'Q'
+                evs_b.append((st, cf, bf))
+            l2b_cases.append(((t, pl, evs_b), 'migration'))
         l2b_cases.append((('p', (1, 2, 3, 4), [(s.replace('U 5 6', 'U 5 2').replace('U 7 8', 'U 7 2'), bool(c), bool(b))
                                                for s, c, b in WITNESSES['release-shadowed']]),
                           'witness:release-shadowed'))
-        for name, c in REGRESSIONS():
+        for name, c in REGRESSIONS(quick_bridge_only=ctx.quick()):
             import re as _re
-            evs_b = [(_re.sub(r'U (\d+) \d+', r'U \1 2', st), cf, bf) for st, cf, bf in c[2]]
+            # real DDL is slow (0.5 s, several seconds on a loaded machine): the first DDL of a history
+            # stays a DDL, further ones become config changes (equally visible in the payload)
+            evs_b, nddl = [], 0
+            for st, cf, bf in c[2]:
+                mm = _re.fullmatch(r'((?:@\S+ )?)U (\d+) \d+', st)
+                if mm:
+                    nddl += 1
+                    st = f'{mm.group(1)}U {mm.group(2)} 2' if nddl == 1 else f'{mm.group(1)}F {mm.group(2)}'
+                evs_b.append((st, cf, bf))
             l2b_cases.insert(0, ((c[0], c[1], evs_b), 'regression'))
 
     # ---------------- level 1
@@ -1572,6 +1780,7 @@ def run(ctx: core.Ctx):
     hist2 = {}
     env = Env('standin')
     try:
+        cacheable_flags = real_release_unit_cacheable(env)
         for j, (case, stream) in enumerate(l2_cases):
             line, bad, case = run_l2(env, case)
             l2_cases[j] = (case, stream)
@@ -1608,9 +1817,13 @@ def run(ctx: core.Ctx):
     l2_all = l2_cases + l2b_cases
 
     # ---------------- the model on the same inputs
-    model = ctx.driver('C09', lines + lines2)
-    if len(model) != len(lines) + len(lines2):
-        raise core.Infra(f'driver returned {len(model)} lines for {len(lines) + len(lines2)}')
+    # histories with migration blocks are outside the Lean model: spec oracle only
+    modelled2 = [not has_mig(c[2]) and c[0] != 'c' for c, _ in l2_all]
+    model = ctx.driver('C09', lines + [l for l, ok in zip(lines2, modelled2) if ok])
+    if len(model) != len(lines) + sum(modelled2):
+        raise core.Infra(f'driver returned {len(model)} lines for {len(lines) + sum(modelled2)}')
+    it2 = iter(model[len(lines):])
+    model2 = [next(it2) if ok else None for ok in modelled2]
     n_dis = 0
     for (case, stream, _pk), line, real, m in zip(l1_cases, lines, reals, model[:len(lines)]):
         if real != m:
@@ -1624,13 +1837,13 @@ def run(ctx: core.Ctx):
     findings = {}
     bridge_confirms = set()
     for j, ((case, stream), line, real, bad, m) in enumerate(
-            zip(l2_all, lines2, reals2, bads2, model[len(lines):])):
+            zip(l2_all, lines2, reals2, bads2, model2)):
         detail = {'l2': [case[0], list(case[1]), [[s, int(c), int(b)] for s, c, b in case[2]]]}
         if j >= n_l2:
             detail['bridge'] = True
-            m = _drop_g(m)
+            m = _drop_g(m) if m is not None else None
             line = 'bridge ' + line
-        if real != m:
+        if m is not None and real != m:
             n_dis += 1
             rs, ms = real.split('|'), m.split('|')
             i = next((j for j in range(min(len(rs), len(ms))) if rs[j] != ms[j]), -1)
@@ -1640,6 +1853,16 @@ def run(ctx: core.Ctx):
         if bad:
             i, what = bad[0]
             cls = classify_uncovered(case[2], i, case[0])
+            # A divergence is attributed to a known family only if the model of the UNMODIFIED code
+            # shows the very same divergence at that statement (same outcome, same payload compiled
+            # against); otherwise the real code has left the spec on its own: ordinary violation.
+            rs_, ms_ = real.split('|'), (m.split('|') if m is not None else [])
+            same_as_model = m is None or (i < len(rs_) and i < len(ms_)
+                                          and rs_[i].split(' <')[0] == ms_[i].split(' <')[0])
+            if cls is not None and not same_as_model:
+                what += (f'  [the history has the known feature {cls!r}, but the model of the unmodified '
+                         f'code does not diverge here: model {ms_[i].split(" <")[0] if i < len(ms_) else "-"}]')
+                cls = None
             if cls is None:
                 ctx.fail(f'oracle2:{line}', what, detail)
             else:
@@ -1674,6 +1897,7 @@ def run(ctx: core.Ctx):
             ('commit_or_rollback_failing_in_place_after_rollback_to', 'statements_sent_while_detached',
              'rollback_to_while_detached'),
             map(sum, zip(*[detached_stats(c[2]) for c, _ in l2_all])))),
+        'real_tx_control_units_cacheable': cacheable_flags,
         'outside_envelope_divergences': findings,
         'release_shadowed_compiler_side_on_real_classes_only': real_core_release_shadowed(),
         'divergences_also_seen_through_real_parser_and_compilers': sorted(bridge_confirms),
